@@ -7,6 +7,9 @@ CHECKS = {
  'C03': ('exploration', 'cap/budget/progress monitor on every batch read of generated programs', '2.1'),
  'C04': ('fault_enumeration', 'failpoint-injected I/O failures and rejected operations vs. lock-step model', '2.2'),
  'C06': ('exploration', 'restart/reopen histories (incl. file-naming clock regression) vs. lock-step model', '2.1'),
+ 'C07': ('fault_enumeration', 'crash-point enumeration over the verif I/O-event hook (_exit before the k-th event per thread class; io_uring batch subsets), recovery in fresh processes vs. acknowledgement log', '2.4'),
+ 'C08': ('fault_enumeration', 'crash points inside batch appends (per block write; every prefix / single omission / random subset of an io_uring batch), all-or-nothing oracle on the recovered topic', '2.4'),
+ 'C09': ('fault_enumeration', 'crash-point enumeration on read-dominated workloads, resumed consumer position vs. returned reads (strict: exact; at-least-once: never ahead, bounded redelivery)', '2.4'),
  'C14': ('exploration', 'hostile key strings through every constructor in a sandbox tree; created files located', '2.3'),
  'C15': ('exploration', 'count probes at quiescent points vs. appended-minus-consumed of the model', '2.1'),
  'C16': ('exploration', 'differential execution per backend in separate processes, transcripts compared', '2.1'),
@@ -14,9 +17,6 @@ CHECKS = {
 }
 NA = {
  'C05': 'runtime monitor (token scheduler over the sched_point hooks + exactly-once checker) designed in DESIGN.md 3 but not finished in the time available; the run_concurrent op of harness/wsrv exists, the history checker does not - not claimed',
- 'C07': 'crash-point enumeration over the io_event hook (DESIGN.md 3) not finished in the time available - not claimed',
- 'C08': 'as C07 (shares the crash driver) - not claimed',
- 'C09': 'as C07 (shares the crash driver) - not claimed',
  'C10': 'needs the I/O-trace power-loss replayer of DESIGN.md 3, not built - not claimed',
  'C11': 'byte-mutation driver (with Miri/ASan runs for the UB part) not built in the time available - not claimed',
  'C12': 'needs >= 100 block allocations (1 GiB) per history and the reclaim-pass hook; driver not built - not claimed',
@@ -32,6 +32,7 @@ NA = {
 }
 LEVEL_TEXT = {
  'exploration': 'held on every generated execution of this run (randomised workloads aimed at the engine constants, oracle = executable sequential model observing the real engine through its public API and the verif accessors); evidence lists programs, consumed entries, rotations, reopen events actually observed. Not a proof: says nothing about programs outside the generator.',
+ 'fault_enumeration:crash': 'every numbered I/O event of each generated workload (sampled down to the tier budget) is used once as a crash point: the worker process dies with _exit(137) before the event; io_uring batches additionally with chosen subsets of their writes applied. Recovery is observed in fresh processes. Held on the crash points of this run only; the evidence counts points per thread class, per event kind and per in-flight operation.',
  'fault_enumeration': 'one injected failure per faulted operation at the verif failpoints (io_uring completion i forced negative/short, submission, block write, file create/set_len/fsync, flush), position and kind drawn per program; the evidence counts faults that actually fired per kind. Held on the executions of this run only.',
 }
 def main():
@@ -47,7 +48,7 @@ def main():
     for pid, (lvl, tech, ref) in sorted(CHECKS.items()):
         m['checks'].append({'property_id': pid, 'quick_cmd': f'./check {pid} --tier quick', 'thorough_cmd': f'./check {pid} --tier thorough',
                             'evidence_file': f'/verif/evidence/{pid}.json', 'replay_cmd_template': f'./check {pid} --replay {{path}}', 'engine': 'wsrv',
-                            'level_claimed': {'category': lvl, 'text': LEVEL_TEXT[lvl], 'design_ref': 'DESIGN.md section B.' + ref},
+                            'level_claimed': {'category': lvl, 'text': LEVEL_TEXT.get(lvl + ':crash') if pid in ('C07', 'C08', 'C09') else LEVEL_TEXT[lvl], 'design_ref': 'DESIGN.md section B.' + ref},
                             'level_note': 'trusted base: the python model (vlib/seq.py), payload identity via (length, crc32, first 24 bytes), the verif hooks being behaviour-neutral when unarmed; single client thread',
                             'technique': tech})
     json.dump(m, open('MANIFEST.json', 'w'), indent=1)
